@@ -63,7 +63,7 @@ pub open spec fn spec_p2f_int(t: asp::Term) -> Option<IntegerTerm>
 pub open spec fn ints_ok(t: asp::Term, s: Asg) -> bool { forall|k: VKey| asp_in_term(t, k) ==> (#[trigger] s[k]) is Int }
 
 /// s2 gives the integer-sorted variable the value s gives the (general) program variable of the same name, for every variable of t
-pub open spec fn int_view_on(t: asp::Term, s2: Asg, s: Asg) -> bool { forall|k: VKey| #[trigger] asp_in_term(t, k) ==> s2[(k.0, Sort::Integer)] == s[k] }
+pub open spec fn int_view_on(t: asp::Term, s2: Asg, s: Asg) -> bool { forall|k: VKey| #[trigger] asp_in_term(t, k) ==> as_int(s2[(k.0, Sort::Integer)]) == as_int(s[k]) }
 
 /// C08 (value of a regular term): a term that p2f_int_term translates has, under an assignment giving its variables integer
 /// values, exactly one value — the integer the translated term denotes — and no value otherwise
@@ -81,13 +81,13 @@ pub proof fn lemma_p2f_int_value(t: asp::Term, it: IntegerTerm, fc: spec_fn(Seq<
         asp::Term::Variable(v) => {
             let k = asp_var_key(v);
             assert(asp_in_term(t, k));
-            assert(s2[(k.0, Sort::Integer)] == s[k]);
+            assert(as_int(s2[(k.0, Sort::Integer)]) == as_int(s[k]));
             if s[k] == Val::Int(i) { assert forall|k2: VKey| asp_in_term(t, k2) implies (#[trigger] s[k2]) is Int by {} }
         }
         asp::Term::PrecomputedTerm(p) => {}
         asp::Term::UnaryOperation { op, arg } => {
             let a = spec_p2f_int(*arg)->Some_0;
-            assert(int_view_on(*arg, s2, s)) by { assert forall|k: VKey| #[trigger] asp_in_term(*arg, k) implies s2[(k.0, Sort::Integer)] == s[k] by { assert(asp_in_term(t, k)); } }
+            assert(int_view_on(*arg, s2, s)) by { assert forall|k: VKey| #[trigger] asp_in_term(*arg, k) implies as_int(s2[(k.0, Sort::Integer)]) == as_int(s[k]) by { assert(asp_in_term(t, k)); } }
             assert forall|j: int| #[trigger] tr1(j) implies in_vals(*arg, s, Val::Int(j)) == (ints_ok(*arg, s) && j == eval_int(a, fc, s2)) by {
                 lemma_p2f_int_value(*arg, a, fc, s, s2, j);
             }
@@ -97,8 +97,8 @@ pub proof fn lemma_p2f_int_value(t: asp::Term, it: IntegerTerm, fc: spec_fn(Seq<
         asp::Term::BinaryOperation { op, lhs, rhs } => {
             let a = spec_p2f_int(*lhs)->Some_0;
             let b = spec_p2f_int(*rhs)->Some_0;
-            assert(int_view_on(*lhs, s2, s)) by { assert forall|k: VKey| #[trigger] asp_in_term(*lhs, k) implies s2[(k.0, Sort::Integer)] == s[k] by { assert(asp_in_term(t, k)); } }
-            assert(int_view_on(*rhs, s2, s)) by { assert forall|k: VKey| #[trigger] asp_in_term(*rhs, k) implies s2[(k.0, Sort::Integer)] == s[k] by { assert(asp_in_term(t, k)); } }
+            assert(int_view_on(*lhs, s2, s)) by { assert forall|k: VKey| #[trigger] asp_in_term(*lhs, k) implies as_int(s2[(k.0, Sort::Integer)]) == as_int(s[k]) by { assert(asp_in_term(t, k)); } }
+            assert(int_view_on(*rhs, s2, s)) by { assert forall|k: VKey| #[trigger] asp_in_term(*rhs, k) implies as_int(s2[(k.0, Sort::Integer)]) == as_int(s[k]) by { assert(asp_in_term(t, k)); } }
             assert forall|x: int, y: int| #[trigger] tr2(x, y) implies
                 in_vals(*lhs, s, Val::Int(x)) == (ints_ok(*lhs, s) && x == eval_int(a, fc, s2))
                 && in_vals(*rhs, s, Val::Int(y)) == (ints_ok(*rhs, s) && y == eval_int(b, fc, s2)) by {
